@@ -97,6 +97,12 @@ CHECKS = {
         text="Real psyclone.psyad.tl2ad.generate_adjoint_str on a generated family of tangent-linear kernels (every loop header - unit/strided/negative/literal/zero-trip - crossed with every assignment form - increments, overwrites, negations, divisions by passive data, scalar accumulations, active temporaries, offsets - plus straight-line, branch-on-passive-data and multi-loop kernels). The TL routine and the adjoint are executed symbolically over exact reals with the active variables x (TL) and y (adjoint) and all passive coefficients as solver variables; for each extent n = 0..E (or the literal extent) the difference of the two inner products is normalised to a sum of monomials and z3 decides that it is zero for all values; it also decides that passive data is untouched and that the adjoint stays inside the declared bounds. Witnesses are replayed by a generated driver that evaluates both inner products with gfortran (bounds checking on).",
         note="Bounds: extents n = 0..4 (quick) / 0..5 (thorough) enumerated, literal extent 10; all values symbolic; exact arithmetic (rounding outside the claim). The PSyAD-generated test harness is not validated. Trusted: fparser2, z3, fsym, gfortran for replay.",
         ref="5/C19"),
+    "C25": dict(
+        level="translation_validation", engine="fsym",
+        technique="SMT over loop-nest summaries of the generated GOcean PSy layer: loop variables are Skolem constants bounded by the symbolically evaluated DO bounds; z3 decides 'visited(i,j) <=> configured region' and invariance under transformations for ALL grid sizes and all points (quantified queries)",
+        text="The real GOcean generator (parse + PSyFactory) is run on synthesised algorithm/kernel files for every index offset x grid-point type x iteration space, including five user-defined iteration spaces loaded from a generated configuration file, and then through GOceanLoopFuseTrans, GOceanOMPParallelLoopTrans, ACC transformations, GOceanExtractTrans and GOConstLoopBoundsTrans. The emitted Fortran is executed by fsym with every DO loop summarised (no unrolling): each kernel call becomes an event whose guard is the predicate 'point (i,j) is visited', over symbolic grid components. z3 decides, for all grids and all points: user-defined spaces visit exactly the region given by the configuration's expressions (with {start} -> 2 and {stop} -> the grid's internal stop, or istop/jstop under constant loop bounds); built-in spaces contain the internal region and stay within the depth-1 halo; every transformation leaves each kernel's visited set and the order of kernel calls unchanged. Witnesses are replayed by evaluating the emitted DO bounds with plain integer arithmetic.",
+        note="Unbounded in grid size (loops are summarised). Kernel bodies are uninterpreted. dl_esm_inf's sources are absent from the repository: the whole/internal layout relation is an axiom of the sanity clause, and equality of constant-bounds and field-bounds regions for BUILT-IN spaces is outside the claim. Trusted: fparser2, z3 (quantified LIA), fsym.",
+        ref="5/C25"),
     "C28": dict(
         level="model_checking", engine="fsym",
         technique="SMT over path-guarded PreStart/PostEnd call events of the symbolically executed instrumented text: z3 decides, for all inputs and all paths within K unrollings, that region depth counters stay in {0,1}, nest LIFO and return to 0",
